@@ -9,7 +9,7 @@ Per property: (1) proof obligations - build Bw/Props/<id>.lean, audit `#print ax
 (2) correspondence - run the real code (harness `bwh`, in-process) and the Lean model (`bwmodel`) on the same
 generated cases and diff canonical outcomes; (3) known findings; (4) evidence file.
 """
-import fcntl, hashlib, json, os, re, shutil, subprocess, sys, tempfile, time
+import fcntl, glob, hashlib, json, os, re, shutil, subprocess, sys, tempfile, time
 
 ROOT = os.path.dirname(os.path.abspath(__file__))
 LEAN = os.path.join(ROOT, "lean")
@@ -423,6 +423,37 @@ def known_findings_pass(rep, registry):
                                    "differences": [{"field": f, "impl": a, "model_and_spec": b} for f, a, b in diffs]})
 
 
+def corpus_pass(rep):
+    """minimised past disagreements (false alarms of the machinery that were corrected, interesting generator finds):
+    they run first on every check; the implementation and the model must agree on each of them"""
+    cdir = os.path.join(ROOT, "corpus", rep.prop)
+    files = sorted(glob.glob(os.path.join(cdir, "*.json"))) if os.path.isdir(cdir) else []
+    if not files:
+        return
+    d = os.path.join(WORK, rep.prop, "corpus")
+    shutil.rmtree(d, ignore_errors=True)
+    os.makedirs(d)
+    cp = os.path.join(d, "raw.jsonl")
+    with open(cp, "w") as f:
+        for fn in files:
+            f.write(json.dumps(json.load(open(fn))["case"]) + "\n")
+    sh([BWH, "replay", "--out", d, cp])
+    run_model(os.path.join(d, "cases.jsonl"), os.path.join(d, "model.jsonl"))
+    with open(os.path.join(d, "cases.jsonl")) as fc, open(os.path.join(d, "impl.jsonl")) as fi, open(os.path.join(d, "model.jsonl")) as fm:
+        for fn, c, i, m in zip(files, fc, fi, fm):
+            case, impl, model = json.loads(c), json.loads(i), json.loads(m)
+            rep.evaluations += 1
+            rep.count("corpus")
+            if case.get("op") == "glob":
+                diffs = [] if impl == model else [("glob", impl, model)]
+            else:
+                diffs = compare_outcome(impl, model)
+            if diffs:
+                rep.violation({"property": rep.prop, "component": "corpus", "what": f"corpus case {os.path.basename(fn)}: implementation and model disagree",
+                               "case": case, "impl": impl, "model": model,
+                               "differences": [{"field": f, "impl": a, "model_and_spec": b} for f, a, b in diffs]})
+
+
 # ------------------------------------------------------------------------------------------------ main
 
 def setup():
@@ -519,6 +550,7 @@ def main():
         rep.obligations = obligations
         rep.extra["translated_tables"] = {k: (len(v) if isinstance(v, list) else v) for k, v in tr.items() if k in ("ext", "detectors")}
         known_findings_pass(rep, registry)
+        corpus_pass(rep)
         meta["run"](rep, tier, seed, tr)
     except Broken as b:
         # an obligation / build / correspondence step no longer checks: search for a failing input, else report no-failing-input-found
